@@ -155,7 +155,7 @@ TRIGGERS: list[set[str]] = [{"array_self_ref"}, {"format_binary"}]  # both hold 
 
 
 def mk_doc(ctx: Ctx, trig: set[str]) -> specgen.Doc:
-    allow = set(trig) | {"format_uuid", "format_time"}
+    allow = set(trig) | {"format_uuid", "format_time", "format_binary"}
     return specgen.generate(ctx.rng, allow=allow, prof={"ops": (1, 2), "schemas": (3, 7), "p_union": 0.0, "max_props": 7, "p_self_ref": 0.08})
 
 
